@@ -251,6 +251,23 @@ func scenarios(w *bufio.Writer) {
 		n.op("X 31", func() { n.d.OnTransaction(Tx(31)) })
 		endRun(w, mon, n)
 	}
+	// C10: a lagging backup has cached ChangeViews of the next height from M validators; when its ledger catches up and it is
+	// re-initialised, the replay of the cache moves it to view 1 from inside the initialisation of view 0: the timer must end
+	// up armed for (height, view 1), and the timeout for that epoch must be handled (first-round seeded change C10)
+	{
+		mon := begin(4, -1, 0)
+		n := mkScenNode(mon, 1, mkVals(4), -1, w)
+		n.start(0)
+		for _, i := range []uint16{0, 2, 3} {
+			n.recv(&Payload{dbft.ChangeViewType, 2, 0, i, chView{1, 0, 0}})
+		}
+		n.height = 1
+		n.op("R 0", func() { n.d.Reset(0) })
+		fmt.Fprintf(w, "NOTE C10 nested view change in replay: height=%d view=%d\n", n.d.BlockIndex, n.d.ViewNumber)
+		n.tm.armed = false
+		n.op("T 2 1", func() { n.d.OnTimeout(2, 1) })
+		endRun(w, mon, n)
+	}
 }
 
 // pump delivers every broadcast payload to every other node in FIFO order until quiet (or max deliveries).
